@@ -89,6 +89,8 @@ func TestCheck(t *testing.T) {
 			"too few instances with realistic identities (ip:port, IPv6, pairs differing by ':' vs '-')")
 		r.Require(r.Counter("passes_with_live_traffic") >= 500 && r.Counter("live_checks_of_instances_with_traffic_during_the_pass") >= 800, "too few cleanup passes with live instances reporting meanwhile")
 		r.Require(r.Counter("histories_with_api_backed_store") >= 100 && r.Counter("reclaimed_checked_in_the_api") >= 200 && r.Counter("api_store_leader_restarts") >= 100, "the API-backed store variant observed too little")
+		r.Require(r.Counter("api_store_moves_to_a_new_server") >= 100 && r.Counter("silent_instances_with_conditions_at_a_move") >= 40 && r.Counter("reclaimed_on_a_server_that_never_heard_from_the_instance") >= 40,
+			"too few moves of the shards to a new server with an instance that went silent before the move")
 		r.Require(r.Counter("upstreams_deleted_and_recreated") >= 50 && r.Counter("instances_with_identity_longer_than_63") >= 50, "too few upstream deletions / long identities")
 		r.Require(r.Counter("histories") >= 100, "too few histories")
 		r.Require(r.Counter("reclaimed_with_conditions") >= 100 && r.Counter("reclaimed_with_counts") >= 100, "too few dead instances with recorded state were reclaimed")
@@ -115,6 +117,7 @@ type inst struct {
 	reports     map[string]int   // upstream -> number of reports since its record was (re)created
 	count       map[string]int32 // upstream -> last accepted in-flight count
 	reqID       int64
+	neverSeen   bool      // went silent before the shards moved to the current server: that server never got a heartbeat from it
 	acquireOnly bool      // second of an identity pair that differs only by ':' vs '-' (see identity)
 	silentAt    time.Time // real-time variant: when it stopped heartbeating
 }
@@ -138,6 +141,7 @@ type history struct {
 	mu         sync.Mutex   // trace (live instances report while a pass runs)
 	k8s        bool         // API-backed store (write-through) over a fake clientset
 	api        *gatewayfake.Clientset
+	gen        int    // number of times the shards moved to a new server process
 	realIDs    bool   // realistic identities (see identity)
 	twin       string // identity the next joining instance takes
 	realtime   bool   // silences are real (no heartbeat for > 3 s of wall time) instead of a back-dated heartbeat
@@ -439,6 +443,51 @@ func (h *history) withTraffic(pass func()) map[string]*touched {
 	return busy
 }
 
+// moveToNewServer (API-backed store): every shard moves to ANOTHER limiter server process - a new rateLimiter with its own,
+// empty heartbeat table - which loads the conditions the API holds. The live instances find it and heartbeat to it; an
+// instance that went silent before the move never does, so the new leader knows it only from the condition it loaded. The
+// in-flight counts are not persisted (they start from zero for everybody). For the oracle a silent instance is, on the new
+// server, in the very state a timeout pass establishes (not in the heartbeat table): it is dead once an unknown-condition
+// pass has run there.
+func (h *history) moveToNewServer() {
+	if !h.k8s {
+		return
+	}
+	var objs []*proxyv1alpha1.UpstreamCluster
+	for _, up := range h.ups {
+		if o, ok := h.srv.Upstream.Get(up); ok {
+			objs = append(objs, o)
+		}
+	}
+	h.gen++
+	next := fmt.Sprintf("limiter-%d", h.gen)
+	for sh := range h.led {
+		h.srv.Elector.Lose(sh, next) // stops and flushes the old leader's store
+	}
+	srv := bed.NewLimiterServer(bed.LimiterOptions{Identity: next, LeadAll: true, Shards: h.srv.Shards, Store: "k8s", GatewayClient: h.api})
+	for _, o := range objs {
+		if err := srv.ApplyUpstream(o); err != nil {
+			h.r.Count("call_errors", 1)
+		}
+	}
+	h.srv = srv
+	h.r.Count("api_store_moves_to_a_new_server", 1)
+	silent := 0
+	for _, w := range h.insts {
+		w.count = map[string]int32{}
+		if w.live {
+			_ = h.srv.Limiter.Heartbeat(w.id)
+			continue
+		}
+		silent++
+		w.expired, w.neverSeen = true, true
+		if len(w.quota) > 0 {
+			h.r.Count("silent_instances_with_conditions_at_a_move", 1)
+		}
+	}
+	h.logf("all shards move to the new server %s (loads the conditions from the API); %d silent instance(s) never heartbeat to it", next, silent)
+}
+
 // apiLeftovers: with the API-backed store, the condition objects of the instance that are still in the API.
 func (h *history) apiLeftovers(id string) []string {
 	if !h.k8s {
@@ -643,7 +692,7 @@ func (h *history) silence(w *inst) {
 }
 
 func (h *history) comeBack(w *inst) {
-	w.live, w.expired = true, false
+	w.live, w.expired, w.neverSeen = true, false, false
 	_ = h.srv.Limiter.Heartbeat(w.id)
 	h.r.Count("returns_same_identity", 1)
 	// what the server still has on record for it is the starting point of its new life (a pass may have removed part of it)
@@ -846,6 +895,9 @@ func (h *history) passUnknown() {
 			if firstOnly {
 				cls = "first-report-only"
 			}
+			if w.neverSeen {
+				cls = "loaded-by-a-new-leader-that-never-heard-from-it"
+			}
 			note := ""
 			for up := range m {
 				if h.foreignName(up, w.id) {
@@ -879,6 +931,9 @@ func (h *history) passUnknown() {
 		}
 		if h.k8s {
 			h.r.Count("reclaimed_checked_in_the_api", 1)
+		}
+		if w.neverSeen {
+			h.r.Count("reclaimed_on_a_server_that_never_heard_from_the_instance", 1)
 		}
 		h.r.Count("reclaimed", 1)
 		h.logf("  %s is dead and fully reclaimed", w.id)
@@ -980,6 +1035,8 @@ func (h *history) run() {
 			h.passTimeout()
 		case x < 86:
 			h.passUnknown()
+		case x < 89 && h.k8s:
+			h.moveToNewServer()
 		case x < 91 && len(silent) > 0:
 			h.comeBack(silent[h.g.Intn(len(silent))])
 		case x < 93 && len(h.ups) > 1 && !h.realtime:
